@@ -279,7 +279,7 @@ func (w *World) Release(peer string) []pfcpx.Dgram {
 	before := w.EventCount("conn.shutdown.done", p.LocalAddr())
 	w.pendingWait = func() {
 		// the teardown runs after the response was sent: wait for its end (hook event), else for an idle datapath
-		if !w.WaitEventCount("conn.shutdown.done", p.LocalAddr(), before+1, 400*time.Millisecond) {
+		if !w.WaitEventCount("conn.shutdown.done", p.LocalAddr(), before+1, w.teardownWait()) {
 			time.Sleep(40 * time.Millisecond)
 		}
 	}
@@ -851,4 +851,85 @@ func (w *World) PeerAt(name, local string) (*pfcpx.Peer, error) {
 	w.Peers[name] = p
 
 	return p, nil
+}
+
+// StopAgent sends SIGTERM (the agent's Stop path), waits for the process to end and records the "stop" event (C10).
+func (w *World) StopAgent(limit time.Duration) bool {
+	errsBefore := w.Bess.Snapshot().Errs
+	start := time.Now()
+	w.Agent.Term()
+
+	return w.FinishStop(start, errsBefore, limit)
+}
+
+// FinishStop waits for the process to end after a stop signal and records the "stop" event.
+func (w *World) FinishStop(start time.Time, errsBefore int, limit time.Duration) bool {
+	exited := w.Agent.WaitExit(limit + 3*time.Second)
+	ms := int(time.Since(start) / time.Millisecond)
+
+	w.Bess.WaitIdle(5*time.Millisecond, time.Second)
+
+	head := "-"
+	exit := 0
+
+	if exited {
+		exit = w.Agent.ExitCode()
+		if h, _ := panicSite(w.Agent.Stderr()); h != "" {
+			head = h
+		}
+
+		if exit < 0 {
+			exit = 255
+		}
+
+		if exit == 66 && len(RaceReports(w.Agent.Stderr())) > 0 {
+			exit = 0 // the race detector's exit status: the reports themselves are recorded as "race" lines
+		}
+	} else {
+		// hung: kill (the goroutine dump of a SIGQUIT would be the next thing to look at by hand)
+		w.Agent.Kill()
+	}
+
+	t := w.Bess.Snapshot()
+	w.emit(map[string]interface{}{"ev": "stop", "exited": exited, "exit": exit, "panic": head, "ms": ms, "limitMs": int(limit / time.Millisecond),
+		"errs": t.Errs, "errsBefore": errsBefore, "dp": w.dpJSON(), "cmds": t.Cmds})
+	w.Steps++
+	w.Died = true // no further steps on this incarnation
+
+	return exited
+}
+
+// WaitParked waits for a goroutine parked at the named gate (argument prefix) and returns its event number (0 on time-out).
+func (w *World) WaitParked(name, argPrefix string, nth int, timeout time.Duration) int {
+	deadline := time.Now().Add(timeout)
+
+	for time.Now().Before(deadline) {
+		w.evMu.Lock()
+		n := 0
+		for _, e := range w.evLog {
+			if e.Gated && e.Name == name && strings.HasPrefix(e.Args, argPrefix) {
+				n++
+				if n == nth {
+					w.evMu.Unlock()
+					return e.Seq
+				}
+			}
+		}
+		w.evMu.Unlock()
+
+		if w.Agent == nil || !w.Agent.Alive() {
+			return 0
+		}
+
+		time.Sleep(500 * time.Microsecond)
+	}
+
+	return 0
+}
+func (w *World) teardownWait() time.Duration {
+	if w.TeardownWait > 0 {
+		return w.TeardownWait
+	}
+
+	return 400 * time.Millisecond
 }
